@@ -39,7 +39,7 @@ def _gains(key):
                          st.tuples(gen.fl(0.1, 1.0).map(lambda b: {g: b}), dt))
     if key.startswith('Mahony'):
         return st.one_of(st.tuples(st.just({}), st.just(0.01)),
-                         st.tuples(st.tuples(gen.fl(1.0, 2.0), gen.fl(0.01, 0.3)).map(lambda t: {'k_P': t[0], 'k_I': t[1]}), dt))
+                         st.tuples(st.tuples(gen.fl(1.0, 2.0), gen.fl(0.05, 0.3)).map(lambda t: {'k_P': t[0], 'k_I': t[1]}), dt))
     if key.startswith('EKF'):
         return st.one_of(st.tuples(st.just({}), st.just(0.01)),
                          st.tuples(st.tuples(gen.log_uniform(-2, 0), gen.log_uniform(-2, 0), gen.log_uniform(-2, 0)).map(
@@ -147,8 +147,11 @@ def horizon(key, P, dt, theta0, tier):
         # (4/beta) ln tan(theta0/2).  Horizon = 6/(beta dt) (1 + ln(1 + tan(theta0/2))) + 800 samples.
         return int(6.0/(beta*dt)*(1.0 + math.log(1.0 + math.tan(min(theta0, 3.06)/2.0)))) + 800
     if key.startswith('Mahony'):
-        kp = P.get('k_P', 1.0)
-        return int(200.0/(kp*dt)) + 5000                  # rate ~k_P with a slow start next to 180 deg, plus the slowly decaying oscillation of the integral (bias) loop
+        kp, ki = P.get('k_P', 1.0), P.get('k_I', 0.3)
+        # rate ~k_P with a slow start next to 180 deg, plus the decay of the bias the integrator winds up during the large-error
+        # transient (time constant k_P/k_I seconds): with k_I = 0.01 that alone takes more than the 30 000-sample cap (seen in the
+        # thorough tier: 0.03 rad left after 24 000 samples), so k_I is drawn from [0.05, 0.3]
+        return int(200.0/(kp*dt)) + 5000 + int(2.5*kp/(ki*dt))
     if key.startswith('EKF'):
         return 12000
     if key.startswith('UKF'):
